@@ -23,6 +23,7 @@ PAYLOADS = [
     ('comment-end', MARK + ' */ fn injected() {} /*'),
     ('braces', MARK + '{}}{'),
     ('unicode', MARK + '\u00e9\u65e5'),
+    ('non-xid', MARK + '\u00b2\u24b6'),          # alphanumeric for char::is_alphanumeric, but not XID_Continue: illegal in an identifier
 ]
 BENIGN = 'plainvalue'
 
@@ -35,12 +36,13 @@ def _schema(pos: str, val: str) -> Tuple[str, str]:
     v = {p: BENIGN + p.replace('-', '') for p in POSITIONS}
     v[pos] = val
     tns = v['namespace-uri'] if pos == 'namespace-uri' else 'http://verif.example/inj'
+    doc = escape(v['documentation']).replace('\r', '&#13;')
     xsd = (f'<xs:schema xmlns:xs="{XS}" elementFormDefault="qualified" targetNamespace={a(tns)} xmlns:t={a(tns)}>\n'
-           f' <xs:simpleType name={a(v["simple-type-name"])}><xs:annotation><xs:documentation>{escape(v["documentation"])}</xs:documentation></xs:annotation>'
+           f' <xs:simpleType name={a(v["simple-type-name"])}><xs:annotation><xs:documentation>{doc}</xs:documentation></xs:annotation>'
            f'<xs:restriction base="xs:string"><xs:enumeration value={a(v["enumeration-value"])}/><xs:enumeration value="other"/></xs:restriction></xs:simpleType>\n'
            f' <xs:simpleType name="Bounded"><xs:restriction base="xs:int"><xs:minInclusive value={a(v["facet-value"] if pos == "facet-value" else "1")}/></xs:restriction></xs:simpleType>\n'
            f' <xs:simpleType name="Sized"><xs:restriction base="xs:string"><xs:maxLength value={a(v["length-facet-value"] if pos == "length-facet-value" else "5")}/></xs:restriction></xs:simpleType>\n'
-           f' <xs:complexType name={a(v["complex-type-name"])}><xs:annotation><xs:documentation>{escape(v["documentation"])}</xs:documentation></xs:annotation>'
+           f' <xs:complexType name={a(v["complex-type-name"])}><xs:annotation><xs:documentation>{doc}</xs:documentation></xs:annotation>'
            f'<xs:sequence><xs:element name={a(v["element-name"])} type="xs:string"/><xs:element name="plain" type="t:Bounded"/></xs:sequence>'
            f'<xs:attribute name={a(v["attribute-name"])} type="xs:string"/></xs:complexType>\n'
            f' <xs:element name={a(v["global-element-name"])}><xs:complexType><xs:sequence><xs:element name="inner" type="xs:int"/></xs:sequence></xs:complexType></xs:element>\n'
@@ -54,15 +56,15 @@ def _schema(pos: str, val: str) -> Tuple[str, str]:
                f'<wsdl:message name="Out"><wsdl:part name="result" element="t:Reply"/></wsdl:message>\n'
                f'<wsdl:portType name="P"><wsdl:operation name={a(v["operation-name"])}><wsdl:input message={a("t:" + v["message-name"])}/><wsdl:output message="t:Out"/></wsdl:operation></wsdl:portType>\n'
                f'<wsdl:binding name="B" type="t:P"><soap:binding style="document" transport="http://schemas.xmlsoap.org/soap/http"/>\n'
-               f' <wsdl:operation name={a(v["operation-name"])}><soap:operation soapAction={a(v["soap-action"] if pos == "soap-action" else "http://verif.example/act")}/>'
+               f' <wsdl:operation name={a(v["operation-name"])}><soap:operation soapAction={a(v[pos] if pos.startswith("soap-action") else "http://verif.example/act")}/>'
                f'<wsdl:input><soap:body use="literal"/></wsdl:input><wsdl:output><soap:body use="literal"/></wsdl:output></wsdl:operation></wsdl:binding>\n'
-               f'<wsdl:service name={a(v["service-name"])}><wsdl:port name="p" binding="t:B"><soap:address location={a(v["address"] if pos == "address" else "http://svc.example.org/x")}/></wsdl:port></wsdl:service>\n'
+               f'<wsdl:service name={a(v["service-name"])}><wsdl:port name="p" binding="t:B"><soap:address location={a(v[pos] if pos.startswith("address") else "http://svc.example.org/x")}/></wsdl:port></wsdl:service>\n'
                f'</wsdl:definitions>\n')
         return 'main.wsdl', txt
     return 'main.xsd', xsd
 
 
-WSDL_POS = ['message-name', 'part-name', 'operation-name', 'soap-action', 'service-name', 'address']
+WSDL_POS = ['message-name', 'part-name', 'operation-name', 'soap-action', 'service-name', 'address', 'soap-action-query', 'address-fragment']
 POSITIONS = ['simple-type-name', 'complex-type-name', 'element-name', 'attribute-name', 'global-element-name', 'enumeration-value',
              'facet-value', 'length-facet-value', 'documentation', 'namespace-uri'] + WSDL_POS
 
@@ -104,7 +106,7 @@ def _skeleton(toks) -> List[str]:
     return out
 
 
-URL_POS = ['soap-action', 'address']
+URL_POS = ['soap-action', 'address', 'soap-action-query', 'address-fragment']
 NAME_POS = ['simple-type-name', 'complex-type-name', 'element-name', 'attribute-name', 'global-element-name', 'message-name', 'part-name',
             'operation-name', 'service-name']
 
@@ -124,6 +126,8 @@ def analyse(text: str, payload: str, benign_skeleton, names_become_identifiers=F
                 bad.append('a bare carriage return inside a doc comment (rustc rejects the file; plain comments may contain one)')
             continue
         if t.kind == 'ident' and names_become_identifiers:
+            if not t.text.replace('r#', '', 1).isidentifier():
+                bad.append(f'`{t.text}` is not a legal Rust identifier (a character outside XID_Start/XID_Continue)')
             continue          # a name legitimately becomes (part of) an identifier; the skeleton comparison below decides
         if t.kind == 'string':
             if '\r' in t.text:
@@ -153,7 +157,10 @@ def _search(repo, positions=None) -> dict:
     for pos in (positions or POSITIONS):
         for pname, payload in [('benign', BENIGN + 'x')] + PAYLOADS:
             if pos in URL_POS:
-                payload = 'http://verif.example/a/' + payload        # these positions must parse as a URL to be accepted at all
+                # these positions must parse as a URL to be accepted at all; the payload sits in the path, the query or the fragment
+                # (the URL parser treats them differently: a backslash survives in query and fragment)
+                payload = {'soap-action': 'http://verif.example/a/', 'address': 'http://verif.example/a/',
+                           'soap-action-query': 'http://verif.example/a?q=', 'address-fragment': 'http://verif.example/a#'}[pos] + payload
             d = os.path.join(root, f'c{n:04d}')
             os.makedirs(d, exist_ok=True)
             fn, txt = _schema(pos, payload)
@@ -181,7 +188,7 @@ def _search(repo, positions=None) -> dict:
             res['rejected_by_generator'] += 1      # an error is a legitimate answer: nothing was emitted
             continue
         text = open(g['out'], encoding='utf-8', errors='replace', newline='').read()
-        expect = payload.replace('\r', '\n') if pos == 'documentation' else payload
+        expect = payload
         # a URL is normalised by the URL parser (percent-encoding, stripped line breaks): the literal need not spell the original text
         probs = analyse(text, expect if pos not in URL_POS else MARK, benign.get(pos), names_become_identifiers=pos in NAME_POS)
         if probs:
